@@ -156,6 +156,8 @@ func replay(id, path string) int {
 		fails = streams.Replay(id, rf.Tier, rf.Replay.Search, rf.Replay.History)
 	case rf.Replay.Search != "" && (strings.HasPrefix(rf.Replay.Search, "rib/") || strings.HasPrefix(rf.Replay.Search, "mixed/") || strings.HasPrefix(rf.Replay.Search, "arrival-orders/") || strings.HasPrefix(rf.Replay.Search, "get-after-every-step")):
 		fails = ribhist.Replay(id, rf.Replay.Search, rf.Replay.History)
+	case id == "C11" && rf.Replay.Scenario != "" && len(rf.Replay.Schedule) > 0:
+		fails = conc.ReplaySchedule(rf.Replay.Scenario, rf.Replay.Schedule)
 	default:
 		fmt.Println("no step-by-step replay for this harness: running the check again and looking for the signature")
 		rep := report.New(id, rf.Tier, "")
